@@ -51,6 +51,10 @@ Inspect(s) == /\ Step /\ UNCHANGED <<time, stack, last, saved>>
               /\ Rec("inspect", [s |-> s], last[s])
 Force(s) == /\ Step /\ last' = [last EXCEPT ![s] = Term(s, time)] /\ UNCHANGED <<time, stack, saved>>
             /\ Rec("force", [s |-> s], Term(s, time))
+\* C02 on generators: the slot's generator object is assigned to a constant parameter of the same
+\* instance; the assignment is rejected and must not touch the generator's cached state
+Reject(s) == /\ Step /\ UNCHANGED <<time, stack, last, saved>>
+             /\ Rec("reject", [s |-> s], None)
 \* _state_push / _state_pop act on all dynamic parameters of the instance
 Mates(s) == {x \in Slots : InstOf[x] = InstOf[s]}
 Push(s) == /\ Step /\ Len(saved[s]) < 2
@@ -66,7 +70,7 @@ Pop(s) == /\ Step /\ saved[s] # <<>>
 Next == \/ \E t \in Times : SetTime(t)
         \/ \E d \in {-1, 1, 2} : Advance(d)
         \/ Enter \/ Exit(FALSE) \/ Exit(TRUE)
-        \/ \E s \in Slots : Read(s) \/ Inspect(s) \/ Force(s) \/ Push(s) \/ Pop(s)
+        \/ \E s \in Slots : Read(s) \/ Inspect(s) \/ Force(s) \/ Push(s) \/ Pop(s) \/ Reject(s)
 Spec == Init /\ [][Next]_vars
 
 \* a cached value is always the term of some time at which the slot was read: values are a function of time
